@@ -1217,6 +1217,10 @@ class MetaModel(object):
         source_metaclass = self.find_metaclass(source_kind)
         target_metaclass = self.find_metaclass(target_kind)
 
+        for key in target_keys:
+            if target_metaclass.attribute_type(key) is None:
+                raise MetaModelException('%s has no attribute named %s' % (target_kind, key))
+
         source_link = target_metaclass.add_link(source_metaclass, rel_id,
                                                 many=source_many,
                                                 phrase=target_phrase,
